@@ -118,6 +118,9 @@ type seqCase struct {
 	inQueue      bool
 	mkTarget     func(maximum uint64) *otter.Cache[int, int]
 	maintMode    bool  // closed-loop policy replay: restricted op mix, audits, maintenance markers
+	forceRead    int   // remaining reads of a burst
+	burstKey     int
+	forceAdv     int64 // the next clock advance is by this much
 	maintRuns    []int64
 	maintAdj     []int64 // per maintenance run: the hill climber's amount (value hook 11 in policy.climb)
 	maintMax     [][3]uint64 // per maintenance run: the policy's maxima when the run began
@@ -748,6 +751,21 @@ func (s *seqCase) step() {
 		fn()
 	}
 	x := r.intn(118)
+	if s.forceRead > 0 {
+		// a burst of reads with no maintenance in between: the lossy read buffer fills and drops records, so a
+		// deadline a read extended in place is re-scheduled only by the wheel's own walk
+		s.forceRead--
+		x = 20 + r.intn(10)
+		if r.chance(60) {
+			k = s.burstKey
+		}
+		if s.forceRead == 5 && s.clk.now < math.MaxInt64/2 {
+			// ... once the buffer is full the clock moves by a tick or more, so that the remaining reads of
+			// the burst extend deadlines while their records are dropped
+			x = 100
+			s.forceAdv = []int64{1 << 30, 1<<30 + 7, 1 << 31, 3 << 30, 1 << 33, 5}[r.intn(6)]
+		}
+	}
 	v0 := s.nextVal
 	defer func() {
 		for v := v0 + 1; v <= s.nextVal; v++ {
@@ -1094,6 +1112,9 @@ func (s *seqCase) step() {
 		if s.clk.now > math.MaxInt64/2 {
 			d = 1
 		}
+		if s.forceAdv != 0 {
+			d, s.forceAdv = s.forceAdv, 0
+		}
 		s.clk.now += d
 		s.sum.Dist["clock_advance"]++
 		return
@@ -1203,8 +1224,13 @@ func runSeqMode(seed uint64, scale int, out string, maintMode bool) *summary {
 			if s.climber && i%230 == 0 {
 				s.nkeys = s.phaseKeys[(i/230)%2]
 			}
+			if maintMode && s.withExp && s.forceRead == 0 && s.r.chance(2) {
+				s.forceRead = 17 + s.r.intn(8)
+				s.burstKey = s.r.intn(s.nkeys)
+				s.sum.Dist["read_bursts"]++
+			}
 			s.step()
-			if s.r.chance(drainChance) {
+			if s.forceRead == 0 && s.r.chance(drainChance) {
 				s.drain()
 			}
 			s.snapshot()
